@@ -17,7 +17,7 @@
    pop_runnable_tasks                       | pop_runnable
    handle_task's decision                   | decide  (dependency results first, then ctx_skip, truthiness of the reason)
    RunContext.is_task_to_be_skipped         | ctx_skip
-   KeyboardInterrupt in the main loop       | MInterrupt (enable_task_abort; skip_all_tasks)
+   KeyboardInterrupt in the main loop       | MInterrupt (enable_task_abort; skip_all_tasks: skip jobs, still in dependency order)
    a worker thread killed by BaseException  | MDie (the job never reaches the completion queue)
    No proofs in this file. *)
 From Coq Require Import List Arith Bool.
@@ -208,10 +208,12 @@ Definition step (g : graph) (n : nat) (sof : bool) (s : st) (m : move) : option 
                        (results s) (cx s) (pc_after g done PLoop) (dead s))
           else None
       | PDrain, t' :: q =>
+          (* skip_all_tasks: the completed task is recorded and the tasks that became runnable are submitted to be skipped *)
           if Nat.eqb t t' then
             let done := t :: completed s in
-            Some (mkSt (remaining s) (poolq s) (running s) q done (results s) (cx s)
-                       (pc_after g done PDrain) (dead s))
+            let p := pop_runnable g (remaining s) done (length g) in
+            Some (mkSt (remove_all p (remaining s)) (poolq s ++ map (fun i => (i, JSkip RInterrupted)) p) (running s) q done
+                       (results s) (cx s) (pc_after g done PDrain) (dead s))
           else None
       | _, _ => None
       end
@@ -235,10 +237,13 @@ Definition step (g : graph) (n : nat) (sof : bool) (s : st) (m : move) : option 
   | MFlag f => Some (mkSt (remaining s) (poolq s) (running s) (complq s) (completed s) (results s)
                           (raise_flag (cx s) f) (pc s) (dead s))
   | MInterrupt =>
+      (* except KeyboardInterrupt: context.enable_task_abort(); skip_all_tasks(...): the runnable remaining tasks are
+         submitted to be skipped, the others will be as their dependencies complete *)
       match pc s with
       | PLoop =>
-          Some (mkSt [] (poolq s ++ map (fun i => (i, JSkip RInterrupted)) (remaining s)) (running s) (complq s) (completed s)
-                     (results s) (raise_flag (cx s) FTasksAborted)
+          let p := pop_runnable g (remaining s) (completed s) (length g) in
+          Some (mkSt (remove_all p (remaining s)) (poolq s ++ map (fun i => (i, JSkip RInterrupted)) p) (running s) (complq s)
+                     (completed s) (results s) (raise_flag (cx s) FTasksAborted)
                      (pc_after g (completed s) PDrain) (dead s))
       | _ => None
       end
